@@ -1,0 +1,18 @@
+//go:build !verif
+// +build !verif
+
+package rpc
+
+import "time"
+
+func vhook(ev string, obj, sub interface{}, a, b uint64) {}
+
+func vbool(v bool) uint64 { return 0 }
+
+func vupgrade(u *upgrade) uint64 { return 0 }
+
+func vnano(t time.Time) uint64 { return 0 }
+
+func vstr(s string) uint64 { return 0 }
+
+func vnumcalls(pc *persistConn) uint64 { return 0 }
